@@ -234,6 +234,7 @@ SAMPLES = [
     {"fn": "bool_shape", "params": {}, "args": {"shape": 6, "a": True, "b": False, "c": True, "uid": False}},
     {"fn": "flag_leaf", "params": {"leaf": 9, "uid": True}, "args": {"b0": False, "b1": False, "b2": True, "b3": False, "b4": True, "b5": False, "b6": False}},
     {"fn": "leaf", "params": {"k": 0}, "args": {"k": 0, "n": 4, "z1": 3, "z2": 5, "z3": 9, "u": 1, "s": 1, "uid": True}},
+    {"fn": "leaf", "params": {"k": 2}, "args": {"k": 2, "n": 4, "z1": 3, "z2": 5, "z3": 9, "u": 1, "s": 1, "uid": False}},
     {"fn": "leaf", "params": {"k": 3}, "args": {"k": 3, "n": 4, "z1": 3, "z2": 5, "z3": 9, "u": 1, "s": 1, "uid": False}},
     {"fn": "leaf", "params": {"k": 12}, "args": {"k": 12, "n": 4, "z1": 3, "z2": 5, "z3": 9, "u": 1, "s": 1, "uid": False}},
     {"fn": "leaf", "params": {"k": 22}, "args": {"k": 22, "n": 4, "z1": 3, "z2": 5, "z3": 9, "u": 1, "s": 1, "uid": False}},
